@@ -279,7 +279,7 @@ def rule_deleted_suffix(ctx):
 
 def run(ctx):
     from rules import preds
-    preds.run(ctx, PROPERTY, ['is_executable', 'is_empty_page', 'is_mapping_a_path'])   # the opaque predicates these rules lean on, against oracle tables
+    preds.run(ctx, PROPERTY, ['is_executable', 'is_empty_page', 'is_mapping_a_path', 'auxv_is_complete'])   # the opaque predicates these rules lean on, against oracle tables
     rule_merges(ctx)
     rule_one_outcome(ctx)
     rule_gate_name(ctx)
